@@ -113,6 +113,7 @@ package ops
 //@   ensures rank(result) == rank(originalT) + maxi(nExtraDims, 0) && dtype(result) == dtype(originalT) && contents(result) == contents(originalT)
 //@   ensures forall k :: 0 <= k && k < nExtraDims ==> dim(result, k) == 1
 //@   ensures forall k :: 0 <= k && k < rank(originalT) ==> dim(result, k + maxi(nExtraDims, 0)) == dim(originalT, k)
+//@   ensures dense_result: blen(result) == nelems(shapeof(result))
 //@   before Reshape assert hint_len: len(newShape) == maxi(nExtraDims, 0) + rank(t)
 //@   before Reshape assert hint_ones: forall k :: 0 <= k && k < maxi(nExtraDims, 0) ==> newShape[k] == 1
 //@   before Reshape assert hint_shape: forall k :: 0 <= k && k < rank(t) ==> newShape[maxi(nExtraDims, 0) + k] == dim(t, k)
@@ -158,6 +159,8 @@ package ops
 //@   ensures shape: err == nil ==> result != nil && allocated(result) && rank(result) == rank(A) && dtype(result) == dtype(B) &&
 //@          (forall k :: 0 <= k && k < rank(A) ==> dim(result, k) == dim(A, k))
 //@   ensures untouched_when_equal: err == nil && (forall k :: 0 <= k && k < rank(A) ==> dim(A, k) == dim(B, k)) ==> result == B
+//@   ensures dense_result: err == nil && blen(B) == nelems(shapeof(B)) ==> blen(result) == nelems(shapeof(result))
+//@   loop 1 invariant blen(B0) == nelems(shapeof(B0)) ==> blen(B) == nelems(shapeof(B))
 //@   loop 1 invariant 0 - 1 <= axis && axis < len(shapeA) && shapeA == shapeof(A) && shapeB == shapeof(B0) && B != nil && allocated(B) &&
 //@          rank(B) == rank(A) && dtype(B) == dtype(B0)
 //@   loop 1 invariant forall k :: axis < k && k < rank(A) ==> (dim(B0, k) == dim(A, k) || dim(B0, k) == 1) && dim(B, k) == dim(A, k)
@@ -174,6 +177,7 @@ package ops
 //@   ensures first_operand_as_is: err == nil ==> result0 == A
 //@   ensures shape: err == nil ==> result1 != nil && allocated(result1) && rank(result1) == rank(A) && dtype(result1) == dtype(B) &&
 //@          (forall k :: 0 <= k && k < rank(A) ==> dim(result1, k) == dim(A, k))
+//@   ensures dense_result: err == nil && blen(B) == nelems(shapeof(B)) ==> blen(result1) == nelems(shapeof(result1))
 
 // ---------------------------------------------------------------------------------------
 // C03: elementwise binary operators. The kernels themselves are gorgonia's (trusted model: equal
